@@ -1,34 +1,49 @@
 (* C07 — second tie to the source: the four space helpers as translated from the
-   C text of bytes_buffer.c on every run (gen/Params_C07.v) are the model's.
-   An edit of the C text of a helper that changes its value anywhere breaks one
-   of these lemmas (whatever the syntactic form of the edit). *)
-From MV Require Import C07.Model gen.Params_C07.
+   C text of bytes_buffer.c on every run (gen/Params_C07.v, shared translator
+   lib/leaftrans.py) are the model's.  An edit of a helper that changes its value
+   anywhere breaks one of these lemmas; a rewrite that only changes its structure
+   (guard clauses, merged arms, ?:, &&, locals, swapped comparisons) does not.
+
+   Range hypotheses: none.  The helpers are C [int] arithmetic, which the
+   translator leaves unwrapped (signed overflow is undefined behaviour and is
+   excluded, as everywhere in C07, by sizes and capacity far below 2^31), so
+   the equalities hold for all integers c w r t. *)
+From MV Require Import Lib.Leaf C07.Model gen.Params_C07.
 From Coq Require Import ZifyBool.
 Local Open Scope Z_scope.
 
-(* bounded: each helper has at most three comparisons *)
-Ltac cmp_all :=
+(* ONE decision procedure, independent of the shape of the generated term:
+   unfold both sides completely (generated raw_ / gen_ definitions, the model
+   helper, the translator's support functions), then split on every condition
+   of every conditional, innermost first, and let lia decide each leaf.
+   Bounded: a helper has a handful of comparisons. *)
+Ltac nocond c := lazymatch c with context [if _ then _ else _] => fail | _ => idtac end.
+Ltac leaf_decide :=
   repeat match goal with
-  | |- context [?a >=? ?b] => rewrite (Z.geb_leb a b)
-  | |- context [?a >? ?b] => rewrite (Z.gtb_ltb a b)
+  | |- context [if ?c then _ else _] => nocond c; destruct c eqn:?; cbv iota
   end;
-  repeat match goal with
-  | |- context [?a <=? ?b] => destruct (Z.leb_spec a b)
-  | |- context [?a <? ?b] => destruct (Z.ltb_spec a b)
-  | |- context [?a =? ?b] => destruct (Z.eqb_spec a b)
-  end; cbn [negb]; try lia.
+  lia.
 
-Lemma gen_cw_eq s : gen_contiguous_writable (cap s) (wp s) (rp s) (tp s) = contiguous_writable s.
-Proof. unfold gen_contiguous_writable, contiguous_writable. cmp_all. Qed.
+Ltac leaf_eq :=
+  intros [c w r t b];
+  cbv beta zeta delta [gen_contiguous_writable gen_jump_writable gen_jump_readable gen_contiguous_readable
+                       raw_contiguous_writable raw_jump_writable raw_jump_readable raw_contiguous_readable
+                       contiguous_writable jump_writable jump_readable contiguous_readable
+                       cap wp rp tp buf wrapu b2z z2b cdiv crem];
+  cbv iota;
+  leaf_decide.
 
-Lemma gen_jw_eq s : gen_jump_writable (cap s) (wp s) (rp s) (tp s) = jump_writable s.
-Proof. unfold gen_jump_writable, jump_writable. cmp_all. Qed.
+Lemma gen_cw_eq : forall s, gen_contiguous_writable (cap s) (wp s) (rp s) (tp s) = contiguous_writable s.
+Proof. leaf_eq. Qed.
 
-Lemma gen_jr_eq s : gen_jump_readable (cap s) (wp s) (rp s) (tp s) = jump_readable s.
-Proof. unfold gen_jump_readable, jump_readable. cmp_all. Qed.
+Lemma gen_jw_eq : forall s, gen_jump_writable (cap s) (wp s) (rp s) (tp s) = jump_writable s.
+Proof. leaf_eq. Qed.
 
-Lemma gen_cr_eq s : gen_contiguous_readable (cap s) (wp s) (rp s) (tp s) = contiguous_readable s.
-Proof. unfold gen_contiguous_readable, contiguous_readable. cmp_all. Qed.
+Lemma gen_jr_eq : forall s, gen_jump_readable (cap s) (wp s) (rp s) (tp s) = jump_readable s.
+Proof. leaf_eq. Qed.
+
+Lemma gen_cr_eq : forall s, gen_contiguous_readable (cap s) (wp s) (rp s) (tp s) = contiguous_readable s.
+Proof. leaf_eq. Qed.
 
 Lemma gen_helpers_eq s :
   gen_contiguous_writable (cap s) (wp s) (rp s) (tp s) = contiguous_writable s /\
